@@ -43,6 +43,11 @@ CHECKS = {
    note=TB + "Cholesky/eigh/pinvh are external; near-boundary cases are kept a factor 8 away from the tolerance and explicit tolerances below rounding level accept either verdict for singular matrices.",
    technique="Lean 4 proof (matrix algebra, Penrose equations, decision logic, generated function) + certificate-carrying differential tests",
    ref="§6 C20"),
+ 'C07': dict(
+   text="Theorems for EVERY random-draw oracle (an out-of-contract draw aborts the model): pairs — positive pairs join distinct points with equal known labels, negative pairs different known labels, indices are positions in the caller's array and never unlabeled, no ordered pair twice, at most n, warning ⇔ fewer than n, equal counts under same_length; chunks — loop invariant (potential idx+Σ⌊|class|/size⌋, disjointness, membership in one initial class) and a termination measure give exactly n chunks of exactly chunk_size distinct members of one class, pairwise disjoint, whenever Σ⌊|class|/size⌋ ≥ n, and ValueError exactly otherwise; k-NN triplets — membership characterisation and count of the combination scheme. Tie: the real generators run with a recording RandomState / NearestNeighbors (patched in-process); the model replays the recorded draws and must reproduce the constraints (sets for pairs, exact arrays for chunks/triplets), warnings and errors; the neighbour search is validated exactly (rational arithmetic) per call; implementation-only soundness oracle and same-seed reproducibility.",
+   note=TB + "numpy's RandomState (seed → draws) and scikit-learn's NearestNeighbors are external; the latter's output is validated exactly on every call of the run.",
+   technique="Lean 4 proof (loop invariants by induction over fuel, for all oracles) + recorded-draw replay correspondence",
+   ref="§6 C07"),
 }
 
 NOT_YET = {}
